@@ -5,6 +5,7 @@ from vlib.common import *
 from vlib import regen
 from checks import c04sql
 from checks import c04filter as cf
+from checks import c04pit
 
 META = {
     "text": "PARTIAL.  Stage 1 (proved + tied): Lean theorems about Store.replay, the independent fold of a bucket's log entries the property "
@@ -310,6 +311,84 @@ def check_read_sql(ctx, inputs, impl, ledger_funcs):
                                   "%s calls %s without passing the store's ledger as first argument" % (m, c["func"]),
                                   {"area": "readsql", "input": inp, "observed": {"sql": q}})
     return st, hows, methods
+
+
+# ---------------------------------------------------------------- captured read SQL: what a point-in-time read of `moves` computes
+
+PIT_WANT = {   # (method, volumes column) that the lattice must have captured under a point in time, for the obligation to mean something
+    ("GetAggregatedBalances", "post_commit_volumes"),
+    ("GetAccountsWithVolumes", "post_commit_volumes"), ("GetAccountsWithVolumes", "post_commit_effective_volumes"),
+    ("GetAccountWithVolumes", "post_commit_volumes"), ("GetAccountWithVolumes", "post_commit_effective_volumes"),
+}
+
+
+def check_pit_pairing(ctx, inputs, impl, fns, ledger_funcs):
+    """checks/c04pit.py on every captured statement: every latest-row read of `moves` — in the statement or in a schema function it
+    calls, the point in time following the `_before` arguments — must cut, order and read by ONE of the two orders a row's totals
+    are kept in (C04.pit_read_pairing)."""
+    pp = c04pit.PitPairing(fns, ledger_funcs)
+    st = collections.Counter()
+    triples = collections.Counter()
+    unfiltered = collections.Counter()
+    reached, seen_pit = set(), set()
+    for inp in inputs:
+        out = impl.get(inp["id"])
+        m = inp["method"]
+        if out is None or "panic" in out or m == "InsertLogs":
+            continue
+        has_pit = inp.get("pit") is not None
+        for q in out["sql"]:
+            if q.startswith("PREPARE ") or q == "ARGS-REACHED-DRIVER" or q.startswith("EXEC "):
+                continue
+            low = q.lower()
+            if "moves" not in low and "get_" not in low and "aggregate_" not in low:
+                continue
+            st["statements_looked_at"] += 1
+            try:
+                reads = pp.statement(q, has_pit, inp["ledger"])
+            except c04sql.SqlShapeError as e:
+                ctx.l2_broken.append({"stream": "readsql-pit-shape", "id": inp["id"], "input": inp, "impl": q, "detail": str(e)})
+                continue
+            for r in reads:
+                st["latest_row_reads"] += 1
+                if r["pit_bound"]:
+                    st["latest_row_reads_under_a_point_in_time"] += 1
+                for f in r["via"]:
+                    reached.add((f, r["pit_bound"]))
+                key = "%s | %s | cut on %s | latest by (%s) | reads %s" % (
+                    m, "/".join(r["via"]) or "query", ", ".join("%s %s PIT" % tuple(d) for d in r["date"]) if r["pit_bound"] and r["date"] else
+                    ("no point in time" if not r["pit_bound"] else "NOT CUT"), ", ".join(r["row_picked_by"]), r["volumes_column"])
+                triples[key] += 1
+                if r["pit_bound"] and r["verdict"] == "sound" and r["volumes_column"]:
+                    seen_pit.add((m, r["volumes_column"]))
+                if r["verdict"] == "no-pit-predicate":
+                    unfiltered["%s %s" % (m, "filter on balance" if "balance_from_volumes" in low else "?")] += 1
+                    continue
+                if r["verdict"] != "unsound":
+                    continue
+                where = "its own SQL" if not r["via"] else "schema function %s (reached through %s)" % (r["site"], " -> ".join(r["via"]))
+                ctx.violation({"property": "C04", "class": "pit-pairing", "method": m, "site": r["site"]},
+                              "%s%s, %s: a row of moves is picked per account and asset — rows cut on %s, the latest by (%s), column %s — %s.  Sound are only: "
+                              "insertion_date <= PIT / latest by seq / post_commit_volumes, and effective_date <= PIT / latest by (effective_date, seq) / "
+                              "post_commit_effective_volumes (C04.pit_read_pairing; the mixed read differs from both replayed figures on C04.wPairing)" % (
+                                  m, " at a point in time" if r["pit_bound"] else "", where,
+                                  ", ".join("%s %s PIT" % tuple(d) for d in r["date"]) or "nothing", ", ".join(r["row_picked_by"]) or "nothing",
+                                  r["volumes_column"], r["why"]),
+                              {"area": "readsql", "input": {k: v for k, v in inp.items() if k != "corpus"},
+                               "observed": {"sql": q, "read": r, "function_body": fns[r["site"]]["body"] if r["site"] in fns else None,
+                                            "sound_pairings": c04pit.SOUND}})
+    if not ctx.replay_file and PIT_WANT - seen_pit:
+        ctx.l2_broken.append({"stream": "readsql-pit-pairing-coverage", "detail": "no sound point-in-time read captured for %s" % sorted(PIT_WANT - seen_pit)})
+    return {
+        "statements_looked_at": st["statements_looked_at"], "latest_row_reads_of_moves": st["latest_row_reads"],
+        "of_which_under_a_point_in_time": st["latest_row_reads_under_a_point_in_time"],
+        "reads (method | where | date cut | order | volumes column)": dict(sorted(triples.items())),
+        "sound_pairings": c04pit.SOUND,
+        "OBSERVATION latest-row reads of moves for a request WITH a point in time that are NOT cut at it (not judged by the pairing: the balance "
+        "filter of the accounts listing compares the CURRENT balance, also when the listing is as of a past instant)": dict(sorted(unfiltered.items())),
+        "LATENT schema functions whose _before reading is not one of the sound pairings; no captured statement passes them a point in time "
+        "(DESIGN 6 #22)": pp.latent(reached),
+    }
 
 
 # ---------------------------------------------------------------- captured read SQL: the WHERE clause built for a filter MEANS the filter
@@ -862,11 +941,13 @@ def run(ctx):
         st, hows, methods = check_read_sql(ctx, inputs, impl, ledger_funcs)
         rs_eval = st["statements"]
         fstruct = check_filter_structure(ctx, inputs, impl, have_driver)
+        pitpair = check_pit_pairing(ctx, inputs, impl, fns, ledger_funcs)
         ctx.cov["readsql"] = {
             "cases": len(inputs), "statements_analysed": st["statements"], "table_references": st["table-references"],
             "ledger_function_calls": st["ledger-function-calls"], "copy_rows_checked": st["copy-rows"],
             "statements_by_method": dict(sorted(methods.items())), "restriction_kinds": dict(sorted(hows.items())),
             "filter_structure": fstruct,
+            "pit_pairing": pitpair,
             "lattice": "method x PIT(absent, zero instant, a date) x expandVolumes x expandEffectiveVolumes x filters "
                        "(accounts: address exact/segments, metadata[k], balance[asset], balance, and/or/not; transactions: reference, timestamp, "
                        "account, source, destination (exact/segments), metadata[k], or/and/not; aggregated balances: address, metadata[k]; logs: date) "
